@@ -33,7 +33,7 @@ Frozen == UNCHANGED <<opens, last>>
 
 TInput == /\ Ev("input") /\ phase \in {"idle"}
           /\ body' = Body(Rec[l]) /\ cur' = [off |-> Rec[l].off, decoy |-> Rec[l].decoy]
-          /\ sched' = Sched(Body(Rec[l])) /\ k' = 1 /\ alg' = AInit /\ seen' = {}
+          /\ sched' = MSched(Body(Rec[l])) /\ k' = 1 /\ alg' = AInit /\ seen' = {}
           \* a preceding function `decoy` declares labels of the same names: its events come first
           /\ phase' = (IF Rec[l].decoy > 0 THEN "pre" ELSE "scan") /\ l' = l + 1 /\ Frozen
 
@@ -67,8 +67,8 @@ TUse == /\ Ev("luse") /\ phase = "scan"
         /\ LET p == Pos IN
            /\ p \in 1..Len(body) /\ IsG(body, p) /\ p \notin seen
            /\ body[p].n = Rec[l].name
-           /\ Rec[l].found = (LegalTargets(body, p) # {})                   \* R
-           /\ Rec[l].found => (Rec[l].target - cur.off) \in LegalTargets(body, p)
+           /\ Rec[l].found = (MLegalTargets(body, p) # {})                  \* R (per function body)
+           /\ Rec[l].found => (Rec[l].target - cur.off) \in MLegalTargets(body, p)
            /\ StepOK("use", p)
            /\ seen' = seen \cup {p}
            /\ IF Strict THEN alg' = AStep(body, alg, sched[k]) /\ k' = k + 1
@@ -79,7 +79,7 @@ TDecl == /\ Ev("ldecl") /\ phase = "scan"
          /\ LET p == Pos IN
             /\ p \in 1..Len(body) /\ IsL(body, p) /\ p \notin seen
             /\ body[p].n = Rec[l].name
-            /\ Rec[l].clash = (\E q \in 1..Len(body) : ClashPair(body, p, q))  \* R
+            /\ Rec[l].clash = (\E q \in 1..Len(body) : MClashPair(body, p, q)) \* R
             /\ StepOK("decl", p)
             /\ seen' = seen \cup {p}
             /\ IF Strict THEN alg' = AStep(body, alg, sched[k]) /\ k' = k + 1
@@ -92,10 +92,10 @@ TOutcome == /\ Ev("outcome") /\ phase = "scan"
             /\ Strict => k > Len(sched)
             \* every goto and every label was visited exactly once
             /\ seen = { p \in 1..Len(body) : IsG(body, p) \/ IsL(body, p) }
-            /\ Diag(400) = RuleE400(body)
-            /\ Diag(420) \subseteq RuleClashMembers(body)
-            /\ (Diag(420) = {}) = (RuleClashMembers(body) = {})
-            /\ Rec[l].ok = RuleAccepts(body)
+            /\ Diag(400) = MRuleE400(body)
+            /\ Diag(420) \subseteq MRuleClashMembers(body)
+            /\ (Diag(420) = {}) = (MRuleClashMembers(body) = {})
+            /\ Rec[l].ok = MRuleAccepts(body)
             /\ phase' = "idle" /\ l' = l + 1
             /\ UNCHANGED <<cur, seen, body, sched, k, alg>> /\ Frozen
 
